@@ -22,9 +22,9 @@ ASSUMPTIONS = [
 ]
 REQUIRED_LABELS = {
     "quick": ["auth:legacy", "auth:segwit", "unauth", "v1", "dev:early", "dev:late", "dev:op",
-              "sig:bad", "multi-chunk-btc", "policy:all-1", "success"],
+              "sig:bad", "multi-chunk-btc", "policy:all-1", "success", "history"],
     "thorough": ["auth:legacy", "auth:segwit", "unauth", "v1", "dev:early", "dev:late",
-                 "dev:op", "sig:bad", "multi-chunk-btc", "policy:all-1", "success",
+                 "dev:op", "sig:bad", "multi-chunk-btc", "policy:all-1", "success", "history",
                  "proof:255-nodes", "sig:0x31", "sig:trailing"],
 }
 
@@ -63,6 +63,26 @@ def sig_bytes(sg):
 
 @st.composite
 def cases(draw, tier):
+    """1..3 sign requests against ONE manager and ONE device (state carried between requests
+    must not leak into what the device ends up holding)."""
+    n = draw(st.sampled_from([1, 1, 1, 2, 2, 3]))
+    first = draw(one_sign(tier))
+    seq = [first]
+    for _ in range(n - 1):
+        nxt = draw(one_sign(tier))
+        nxt["v1"] = first["v1"] and "tx" not in nxt
+        if nxt["v1"] and nxt["path"] not in refs.UNAUTH_PATHS:
+            nxt["v1"] = False
+        seq.append(nxt)
+    if any(c["v1"] for c in seq):
+        seq = [c for c in seq if "tx" not in c and c["path"] in refs.UNAUTH_PATHS] or [first]
+        for c in seq:
+            c["v1"] = seq[0]["v1"]
+    return {"seq": seq}
+
+
+@st.composite
+def one_sign(draw, tier):
     thorough = tier == "thorough"
     v1 = draw(st.integers(0, 9)) == 0
     if v1:
@@ -179,9 +199,27 @@ def check_btc(c, held_btc, ed):
                                 i, s.hex()[:200], sorted(a.hex()[:200] for a in allowed)))
 
 
-def run_case(c):
+def run_case(h):
+    seq = h["seq"] if "seq" in h else [h]
     w = mw.default_world()
+    p = mw.stack(w, v1=seq[0]["v1"])
+    labels = []
+    nt = False
+    if len(seq) >= 2:
+        labels.append("history")
+    for c in seq:
+        out = run_one(c, w, p)
+        labels.extend(out.labels)
+        nt = nt or out.nontrivial
+    return Out(labels, nt or len(seq) >= 2)
+
+
+def run_one(c, w, p):
     w.policy = Policy(c["policy"])
+    w.sign_dev = {}
+    w.sign_answer_op = None
+    n_completed = len(w.completed)
+    n_chunks = len(w.sent_chunks)
     w.sig_der = sig_bytes(c["sig"])
     dev = c["dev"]
     if dev:
@@ -189,7 +227,6 @@ def run_case(c):
             w.sign_dev["%s:%s" % (dev["kind"], dev["part"])] = dev["n"]
         else:
             w.sign_answer_op = dev["op"]
-    p = mw.stack(w, v1=c["v1"])
     mark = len(w.log)
     req = build_request(c)
     rep = mw.request(p, req)
@@ -206,7 +243,7 @@ def run_case(c):
         labels.append("policy:all-255")
 
     # --- what the device ends up holding, and whether everything was consumed
-    completed = w.completed
+    completed = w.completed[n_completed:]
     early_hit = any(k.startswith("early:") for h in completed for k in h) or \
         (w.sign_st is not None and any(k.startswith("early:") for k in w.sign_st.held))
     dev_success = len(completed) == 1 and (w.sign_answer_op is None or w.sign_answer_op == 0x81)
@@ -216,7 +253,8 @@ def run_case(c):
     # chunk discipline: never more than requested (the device would have refused), and the
     # concatenation per part is a prefix of the part
     per_part = {}
-    for (name, requested, data) in w.sent_chunks:
+    sent_chunks = w.sent_chunks[n_chunks:]
+    for (name, requested, data) in sent_chunks:
         if len(data) > requested:
             raise Violation("chunk-longer-than-requested", "%s %d > %d" % (name, len(data),
                                                                           requested))
@@ -234,7 +272,7 @@ def run_case(c):
             labels.append("sig:0x31")
         if c["sig"]["trailing"]:
             labels.append("sig:trailing")
-    if authorized and sum(1 for x in w.sent_chunks if x[0] == "btc") >= 2:
+    if authorized and sum(1 for x in sent_chunks if x[0] == "btc") >= 2:
         labels.append("multi-chunk-btc")
         nontrivial = True
     if authorized and len(c["proof"]) >= 200:
@@ -280,7 +318,7 @@ def run_case(c):
         else:
             if held.get("hash") != exp["hash"]:
                 raise Violation("hash-bytes", "%r vs %r" % (held.get("hash"), exp["hash"]))
-            if w.sent_chunks:
+            if sent_chunks:
                 raise Violation("unexpected-chunks", "unauthorized signing sent chunks")
     elif not dev and sig_ok:
         raise Violation("no-session-completed", "no deviation but the device completed %d "
